@@ -58,8 +58,10 @@ def run(tier, seed, replay=None):
         pd = rng.choice([2, 2, 3, 3])
         order = rng.choice([2, 2, 3, 4]) if pd == 2 else rng.choice([2, 2, 3])
         ref = rng.choice([0, 0, 1, 2]) if pd == 2 else rng.choice([0, 0, 1])
-        cx = X.build(rng, pd, order=order, refine=ref)
+        rep_knot = order >= 3 and rng.random() < 0.5
+        cx = X.build(rng, pd, order=order, refine=ref, repeat_knot=rep_knot)
         args = describe(cx, order=order, refine=ref)
+        args['repeated_knot'] = rep_knot
         nontriv.add(C.case_hash(args))
         try:
             model = SplineModel(pd, cx['dim'])
